@@ -218,6 +218,16 @@ def lag_n(c):
     return ln / 2          # size >> 1 == floor(size / 2) for size >= 0
 
 
+def lag_inputs(c):
+    stuff = c._params['stuff']
+    ins = c.post.self.v('_inputs')
+    so = ins.extra.get('slice_of') if ins.k == 'seq' and ins.extra else None
+    if so is None or so[0] is not stuff.extra:
+        return z3.BoolVal(False)
+    n = stuff.extra['len']
+    return z3.And(so[1] == n / 2, ins.extra['len'] == n - n / 2)
+
+
 for where in ('in-definition', 'outside'):
     for lastdef in (('none', 'any') if where == 'in-definition' else ('none',)):
         tag = where + ('' if where == 'outside' else '-last-name-default-' + lastdef)
@@ -240,7 +250,8 @@ for where in ('in-definition', 'outside'):
     contract(F, 'LagControl._init_ugen', props=('C04',),
              params={'self': 'self', 'stuff': values_kind},
              ensures=[('first-slot-is-array-length;array-and-counter-advance-by-half-of-the-arguments',
-                       init_post(lag_n))],
+                       init_post(lag_n)),
+                      ('the-lag-times-(second-half-of-the-arguments)-are-the-units-inputs', lag_inputs)],
              **common(where))
     variant('LagControl._init_ugen', where)
 
